@@ -507,6 +507,15 @@ def run(prop, report, tier, seed, replay=None):
                 distinct_nontrivial += 1
     for case in cases:
         obs = S.run_case(case)
+        if obs['outcome'] == 'laberror' and case.get('runner') in ('fork', 'spawn'):
+            # real worker processes: a task that was executing when run_tasks raised keeps running and saves its result on its
+            # own (it was started before the raise, which is all the property asks); whether that entry is already there when
+            # the store is read afterwards is a race, and the run-level model has no term for it
+            fin = {e[1] for e in obs['events'] if e[0] == 'finish'}
+            inflight = {e[1] for e in obs['events'] if e[0] == 'submit'} - fin
+            if inflight & set(obs.get('final_store', [])):
+                obs['final_store'] = [t for t in obs['final_store'] if t not in inflight]
+                dist['inflight_at_raise_saved_later'] += 1
         results.append((case, obs))
         terms.append(S.emit_case(case, obs))
         dist[f"runner={case['runner']}"] += 1
